@@ -47,7 +47,8 @@ def oracle(case, stats):
     atol, hints, seeds = case["atol"], case["hints"], case["seeds"]
     try:
         groups = ref_match.find_all(case["cell"], case["spos"], case["sels"], case["ppos"], case["pels"], atol,
-                                    in_thr=ref_match.in_threshold(case["ppos"], hints, atol))
+                                    in_thr=ref_match.in_threshold(case["ppos"], hints, atol),
+                                    max_candidates=2000 if len(case["ppos"]) > 8 else 20000)
     except ref_match.TooAmbiguous:
         stats.count("skipped:reference-budget")
         return
@@ -70,6 +71,15 @@ def strategy(tier):
     return gen_geom.planted(max_copies=4, tightness=[1.02, 1.02, 1.1, 1.5, 3.0])
 
 
+def large_strategy(tier):
+    """linker-sized planar patterns (12-18 atoms) with decoys that have ONE atom 3.6-5 tolerances out of plane: every pair
+    distance still agrees, the RMSD over all atoms is below the tolerance, yet no rigid motion brings every atom within
+    sqrt(3)*atol (certified by the minimax lower bound of the reference)"""
+    return gen_geom.planted(max_copies=2, pattern_classes=["planar"], min_atoms=12, max_atoms=18, with_hints=False,
+                            decoy_kinds=["out-of-plane", "out-of-plane", "loose"], oop_range=(3.6, 5.0),
+                            tightness=[1.1, 1.5], atols=[0.01, 0.05, 0.1], noise_levels=(0.0, 1 / 64.0))
+
+
 def edit_oracle(case, stats):
     from props.c01 import edit_oracle as eo
     eo(case, stats, completeness=True)
@@ -83,4 +93,5 @@ def edit_strategy(tier):
 PARTS = [
     HypPart("planted", strategy, oracle, {"quick": 6000, "thorough": 60000}),
     HypPart("edit-then-search", edit_strategy, edit_oracle, {"quick": 1500, "thorough": 15000}),
+    HypPart("large-patterns", large_strategy, oracle, {"quick": 320, "thorough": 4000}),
 ]
